@@ -1,0 +1,32 @@
+//go:build verif
+
+package loader
+
+import (
+	"github.com/compose-spec/compose-go/v2/tree"
+	"gopkg.in/yaml.v3"
+)
+
+// VerifResetDecode decodes one YAML document through a ResetProcessor, exactly as loadYamlFile does,
+// and returns the decoded value together with the paths recorded for `!reset` / `!override` nodes.
+func VerifResetDecode(content []byte) (any, []string, error) {
+	var raw any
+	p := &ResetProcessor{target: &raw}
+	if err := yaml.Unmarshal(content, p); err != nil {
+		return nil, nil, err
+	}
+	paths := make([]string, len(p.paths))
+	for i, x := range p.paths {
+		paths[i] = string(x)
+	}
+	return raw, paths, nil
+}
+
+// VerifResetApply runs ResetProcessor.Apply with the given recorded paths on target (mutated in place).
+func VerifResetApply(paths []string, target any) error {
+	p := &ResetProcessor{}
+	for _, x := range paths {
+		p.paths = append(p.paths, tree.Path(x))
+	}
+	return p.Apply(target)
+}
